@@ -11,6 +11,7 @@
 
 mod exact;
 mod moments;
+mod pairs;
 mod report;
 mod types;
 
@@ -83,6 +84,22 @@ fn main() {
             vals.par_iter()
                 .fold(Report::default, |mut r, v| {
                     moments::process_line(v, &want, &mut r);
+                    r
+                })
+                .reduce(Report::default, Report::merge)
+        }
+        ("replay", Some(fam @ ("weighted" | "covariance"))) => {
+            let vals = read_emitted(&m["input"]);
+            let weighted = fam == "weighted";
+            let want = pairs::PWant {
+                prop: m["prop"].clone(),
+                types: list(&m, "types", "WeightedMean,WeightedMeanWithError,Covariance"),
+                embs: pairs::parse_pair_embs(m.get("embeddings").map(|s| s.as_str()).unwrap_or(if weighted { "E0:W0" } else { "E0:E0" }), weighted),
+                family: fam.to_string(),
+            };
+            vals.par_iter()
+                .fold(Report::default, |mut r, v| {
+                    pairs::process_line(v, &want, &mut r);
                     r
                 })
                 .reduce(Report::default, Report::merge)
